@@ -341,6 +341,18 @@ def corr_cim(ctx, chk, broken):
             body = bytes((j * 31 + ln + i) & 0xff for j in range(ln))
         else:
             body = bytes(rnd.randrange(256) for _ in range(ln))
+        # images that look like the output formats themselves: a BIN container whose header is consistent with the image's own length
+        # (FE, begin, end, exec, end-begin+1 == len-7), the same with an inconsistent header, a CAS file prefix
+        if 8 <= ln < 0x8000 and kind == 0 and i % 2 == 0:
+            begin = rnd.randint(0, 0x10000 - (ln - 7))
+            end = begin + (ln - 7) - 1
+            ex = rnd.randint(begin, end)
+            if i % 4 == 2:
+                end = (end + rnd.choice([1, -1, 7])) & 0xffff
+            body = bytes([0xfe, begin & 0xff, begin >> 8, end & 0xff, end >> 8, ex & 0xff, ex >> 8]) + body[7:]
+        elif 40 <= ln < 0x8000 and kind == 1 and i % 2 == 0:
+            casp = bytes([0x1f, 0xa6, 0xde, 0xba, 0xcc, 0x13, 0x7d, 0x74]) + bytes([0xd0] * 10) + b'NAME  ' + bytes([0x1f, 0xa6, 0xde, 0xba, 0xcc, 0x13, 0x7d, 0x74])
+            body = casp + body[len(casp):]
         nl = rnd.choice([0, 1, 5, 6, 7, 8, 12, rnd.randint(0, 12)])
         nam = bytes(rnd.choice(b'ABCxyz019 _-.') for _ in range(nl))
         fname = rnd.choice(['a.cim', 'img%02d.cim' % (i % 100), 'x', 'sixsix', 'seven77', 'LONGFILENAME.cim'])
@@ -384,7 +396,7 @@ def corr_cim(ctx, chk, broken):
     shutil.rmtree(tmp, ignore_errors=True)
     cov = {'evaluations': len(lines), 'distinct_nontrivial': len(classes),
            'rule': 'one evaluation = one run of the built cim2bin or cim2cas binary (go build from /repo) on a generated image file; lengths {1,2,3,255..257,4095,4096,0x7fff,0x8000,0xffff,0x10000} and random, '
-                   'offsets {0, largest that fits, one less, 0xA000, random}, names of length 0 (default = file name),1,5,6,7,8,12; whole output compared byte for byte with the model; '
+                   'offsets {0, largest that fits, one less, 0xA000, random}, names of length 0 (default = file name),1,5,6,7,8,12; one image in eight is itself shaped like an output file (a BIN container with a header consistent, or just not consistent, with the image length; a CAS prefix); whole output compared byte for byte with the model; '
                    'distinct = distinct (length class, name length class, offset edge) combinations',
            'correspondence': {'cases': len(cases), 'runs': len(lines)}}
     return out, cov
@@ -734,7 +746,8 @@ PROPS = {
         'explanation': 'slot obligations of Jump/CallRet/Stack; taken iff condition for all F; push layout; CALL;RET and PUSH;POP round trips for every state incl. SP wrap',
     },
     'C06': {
-        'targets': ['Z80.Props.C06'],
+        'targets': ['Z80.Props.C06', 'Z80.Props.C06Ctor'],
+        'audit_extra': ['C06Ctor'],
         'count': ['Z80/Proofs/Interrupt.lean', 'Z80/Proofs/IM0.lean', 'Z80/Proofs/Frame.lean', 'Z80/Props/C06.lean', 'Z80/Proofs/OblB/*.lean', 'Z80/Proofs/TablesB/*.lean', 'Z80/Proofs/BusLemmas.lean', 'Z80/Proofs/StepB.lean', 'Z80/Proofs/IM0B.lean', 'Z80/Proofs/FrameB.lean'] + ALL_OBL,
         'correspond': corr_intr(3000, 60000),
         'assumptions': ['request types: Type = 0 is NMI, anything else maskable', 'IM 0 / IM 2 requests without data and IM outside {0,1,2} are outside the property; the code\'s behaviour (dropped / never accepted) is recorded in the specification',
@@ -791,12 +804,12 @@ PROPS = {
         'explanation': 'kernel evaluation over the whole finite data: the 67+67 records reached through each image\'s own pointer table equal the Go table entries in order, byte for byte (mask, base, increment, shift, CRC, description), and equal the pinned canonical records',
     },
     'C15': {
-        'targets': ['Z80.Props.C15', 'Z80.Props.C15Gen'],
-        'audit_extra': ['C15Gen'],
-        'count': ['Z80/Props/C15.lean', 'Z80/Props/C15Gen.lean'],
+        'targets': ['Z80.Props.C15', 'Z80.Props.C15Gen', 'Z80.Props.C15Bisim'],
+        'audit_extra': ['C15Gen', 'C15Bisim'],
+        'count': ['Z80/Props/C15.lean', 'Z80/Props/C15Gen.lean', 'Z80/Props/C15Bisim.lean', 'Z80/Proofs/Assoc.lean'],
         'correspond': corr_memio,
         'assumptions': ['every method of memio.go is TRANSLATED on each run (tools/go2lean/memiotr.go -> Z80/Gen/MemIO.lean, Option monad, none = panic) over the prelude Z80/GoStore.lean (the reading of Go slice/map primitives: trusted, validated by the memiogen stream); Props/C15Gen.lean proves each translated method equal to the store function of the hand-written model for every input, Clone and Clear for every visiting order of range-over-map',
-                        'which variables share an object (Go slices/maps are reference objects: aliasing, Put returning its receiver, Clone allocating) is the hand-written heap model Z80.Spec.MemIO, tied to the code by the operation-sequence correspondence (real types vs model vs model-with-translated-methods)',
+                        'which variables share an object (Go slices/maps are reference objects: aliasing, Put returning its receiver, Clone allocating) is the hand-written heap model Z80.Spec.MemIO, tied to the code by the operation-sequence correspondence (real types vs model vs model-with-translated-methods); Props/C15Bisim.lean proves the heap model driven by the translated methods EQUAL to the hand-written one on every well-typed world, well-typedness invariant, hence equal answers for every operation sequence (runGen_eq)',
                         'Go int is modelled unbounded (sums of a uint16 and a slice length cannot overflow 64 bits)',
                         'DumbMemory.Put outside the slice panics in Go (slice bounds) — outside the property\'s "block lying inside the slice"; the model records it as a panic that changes nothing',
                         'slices are created with cap = len (a Put may otherwise write into spare capacity)',
